@@ -49,6 +49,12 @@ CHECKS = {
     "C20": dict(engine="api", cat="exploration", tech="runtime monitoring of extension registration scenarios (call counters, rule identity log, before/after snapshots) in fresh processes",
                 text="32 (quick) / 96 (thorough) registration scenarios x 2 builds, each in its own process: extension opcodes emulated and natively compiled against their own reference, rule precedence logged, built-in programs compared before/after",
                 note="rules registered for sse only"),
+    "C09": dict(engine="codemem", cat="exploration", tech="runtime invariant monitoring of the code-memory allocator through a walk hook under its own lock, against a shadow model; exhaustive alloc/free sequences plus random real histories",
+                text="all alloc/free sequences to depth 6 (thorough: 7) over six sizes, and long random compile/take_code/free/re-execute histories, with structural, overlap, reuse and byte/result-stability invariants checked after every step",
+                note="exhaustive only for the stated alphabet and depth; needs the ORC_VERIF_HOOKS walk hook"),
+    "C19": dict(engine="cpu", cat="exploration", tech="runtime monitoring of target selection in child processes whose cpuid/XCR0 reads are masked by a hook, plus ISA oracle and execution of the default compile path",
+                text="hundreds (thorough: thousands) of simulated feature subsets x override settings, each in a fresh process: default target, executable flags, default flags, named requests and the code returned by the default compile path are checked",
+                note="only subsets of this host's CPU features can be simulated"),
 }
 
 PENDING = ["C04", "C05", "C06", "C07", "C08", "C09", "C11", "C12", "C13", "C14", "C15", "C16", "C17", "C19", "C20"]
@@ -60,6 +66,8 @@ ENGINES = [
      "kind_free_text": "operand-value sweeps of the emulator against harness/ref.c"},
     {"name": "api", "path": "harness/api.c", "serves_properties": ["C05", "C13", "C14", "C15", "C16", "C17", "C20"],
      "kind_free_text": "API-level monitors (compile totality, bytecode round trip, parser fuzzing, text/API equivalence, lifecycle, determinism, extension opcodes), built with ASan/UBSan or plain"},
+    {"name": "codemem", "path": "harness/codemem.c", "serves_properties": ["C09"], "kind_free_text": "allocator history enumeration and random compile/free histories with a hook-based invariant walk"},
+    {"name": "cpu", "path": "harness/cpu.c", "serves_properties": ["C19"], "kind_free_text": "per-process probe of target selection under masked cpuid"},
     {"name": "asmdump+asmcmp", "path": "harness/asmdump.c", "serves_properties": ["C11", "C12"],
      "kind_free_text": "dumps listing and machine code of compiled programs; vlib/asmcmp.py compares them through GNU as/objdump and classifies instructions against ISA subsets"},
 ]
